@@ -168,7 +168,7 @@ def prog_history(kit, actor, doc, elem, cfg):
     shape = cfg.get('shape') or rng.choice(SHAPES)
     nsteps = cfg.get('nsteps') or rng.randint(3, cfg.get('nsteps_max', 14) if rng.random() < 0.5 else 14)
     wts = dict(add=6, add_bad=1.5, add_foreign=0.4, add_to_leaf=0.25, readd=0.5, remove_stale=0.25, weird=0.0, replace_raw=0.25,
-               add_attached=0.0, xsd_toggle=0.0, remove_elsewhere=0.0, attr_xml=0.3, padded=0.0,
+               add_attached=0.0, xsd_toggle=0.0, remove_elsewhere=0.0, attr_xml=0.3, padded=0.0, add_under_unchecked=0.3,
                fwd=0.5, remove=2, replace=1, replace_other=0.4,
                dot_value=0.7, dot_element=0.6, dot_none=0.6, to_string=1.2, to_string_ic=0.5, check=0.5,
                check_ic=0.2, complete=0.8, read=0.6, attr=0.4, attr_bad=0.2, value_bad=0.2, remove_foreign=0.2,
@@ -363,6 +363,14 @@ def _one_random(kit, actor, doc, root, sub, wts, cfg):
                     tp = w.path_of(t)
                     if tp:
                         yield {'op': 'ADD', 'a': actor, 'p': tp, 'attached': cp, 'c': {'name': c.name}, 'fault': 'rej.attached_child'}
+    elif kind == 'add_under_unchecked':
+        # an unchecked element of ANY type (also one whose type has no children at all) accepts any child
+        un = [n for n in root.walk() if not n.xsd_check]
+        if un:
+            t = rng.choice(un)
+            tp = w.path_of(t)
+            if tp:
+                yield {'op': 'ADD', 'a': actor, 'p': tp, 'c': kit.childspec(rng.choice(spec.ALL_ELEMENTS), opaque=True)}
     elif kind == 'padded':
         # free text with leading / trailing / doubled white space, assigned after construction
         texty = [c for c in node.children if spec.type_kind(spec.ELEM_TYPE[c.name]) == 'simple'
